@@ -3,6 +3,7 @@ package main
 // SSA + VTA call graph: reachability and who-may-reach queries.
 
 import (
+	"go/ast"
 	"go/types"
 	"sort"
 
@@ -86,6 +87,8 @@ func (p *Prog) Reachable(graph string, roots ...string) *reach {
 			queue = append(queue, n)
 		}
 	}
+	fsmOwners := p.fsmCallbackOwners()
+	raised := map[string]bool{}
 	for len(queue) > 0 {
 		n := queue[0]
 		queue = queue[1:]
@@ -95,10 +98,38 @@ func (p *Prog) Reachable(graph string, roots ...string) *reach {
 			if pn := pred[n]; pn != nil {
 				r.from[d] = s.declared(pn.Func)
 			}
+			// FSM refinement: a function that raises an event on a state machine reaches exactly the
+			// callbacks registered on that kind of state machine
+			if fn := p.FuncOf[d]; fn != nil {
+				for _, owner := range p.fsmRaisedIn(fn) {
+					if raised[owner] {
+						continue
+					}
+					raised[owner] = true
+					if of := p.Funcs[owner]; of != nil {
+						if sf := s.prog.FuncValue(of.Obj); sf != nil {
+							for _, anon := range sf.AnonFuncs {
+								if an := g.Nodes[anon]; an != nil && !seen[an] {
+									seen[an] = true
+									pred[an] = n
+									queue = append(queue, an)
+								}
+							}
+						}
+					}
+				}
+			}
 		}
 		// anonymous functions defined inside n are considered reachable when n is (they may be
 		// stored and invoked later: timers, callbacks); VTA adds the invocation edges as well.
 		for _, e := range n.Out {
+			// the FSM library invokes only the callbacks of the machine the event was raised on (edges
+			// added above); VTA merges the callback maps of all machines
+			if par := e.Callee.Func.Parent(); par != nil && n.Func.Pkg != nil && n.Func.Pkg.Pkg.Path() == "github.com/looplab/fsm" {
+				if po := s.declared(par); po != nil && fsmOwners[p.FuncName(po)] {
+					continue
+				}
+			}
 			if !seen[e.Callee] {
 				seen[e.Callee] = true
 				pred[e.Callee] = n
@@ -106,6 +137,9 @@ func (p *Prog) Reachable(graph string, roots ...string) *reach {
 			}
 		}
 		for _, anon := range n.Func.AnonFuncs {
+			if d != nil && fsmOwners[p.FuncName(d)] && n.Func.Parent() == nil {
+				continue // callback literals run when an event is raised, not when the table is built
+			}
 			if an := g.Nodes[anon]; an != nil && !seen[an] {
 				seen[an] = true
 				pred[an] = n
@@ -162,5 +196,45 @@ func (p *Prog) CallersOf(fn *Func) []string {
 		out = append(out, k)
 	}
 	sort.Strings(out)
+	return out
+}
+
+// fsmCallbackOwners: the functions whose literals are the callback tables of the state machines.
+func (p *Prog) fsmCallbackOwners() map[string]bool {
+	return map[string]bool{"objects.callbacks": true, "objects.NewObjectState": true}
+}
+
+var fsmRaisedCache = map[*Func][]string{}
+
+// fsmRaisedIn: which callback tables fn reaches by calling Event on a state machine field.
+func (p *Prog) fsmRaisedIn(fn *Func) []string {
+	if r, ok := fsmRaisedCache[fn]; ok {
+		return r
+	}
+	var out []string
+	if fn.Decl.Body != nil {
+		ast.Inspect(fn.Decl.Body, func(n ast.Node) bool {
+			call, ok := n.(*ast.CallExpr)
+			if !ok {
+				return true
+			}
+			sel, ok := unparen(call.Fun).(*ast.SelectorExpr)
+			if !ok || (sel.Sel.Name != "Event" && sel.Sel.Name != "SetState") {
+				return true
+			}
+			f := p.SelField(sel.X)
+			if f == nil {
+				return true
+			}
+			switch p.FieldName(f) {
+			case "objects.Application.stateMachine":
+				out = append(out, "objects.callbacks")
+			case "objects.Queue.stateMachine", "scheduler.PartitionContext.stateMachine":
+				out = append(out, "objects.NewObjectState")
+			}
+			return true
+		})
+	}
+	fsmRaisedCache[fn] = out
 	return out
 }
